@@ -326,7 +326,13 @@ class MultiByteValue(Value):
         if "," not in value:
             raise ValueTypeError("multi-byte declarations must have a comma in them")
         values = value.split(",")
-        self.hex_array = [NumericValue(x).hex(size=2) for x in values if x != ""]
+        self.hex_array = []
+        for x in values:
+            if x != "":
+                byte_value = NumericValue(x)
+                if byte_value.int > (0x80 if byte_value.is_negative() else 0xFF):
+                    raise ValueTypeError("[{}] does not fit in a byte".format(x))
+                self.hex_array.append(byte_value.hex(size=2))
 
     def hex(self, size=0):
         return "".join(self.hex_array)
